@@ -438,6 +438,12 @@ func e3Jobs(prop, tier string) []e3Job {
 	for p := 0; p < 4; p++ {
 		jobs = append(jobs, e3Job{7, 0, p, 4})
 	}
+	// structured header rewrites per seed: quantisation segment lattice, repeated frame header, in-stream markers
+	for si, s := range seeds {
+		if s.DevHi == 0 && !strings.HasPrefix(s.Name, "fixture") && len(s.Data) < 4096 {
+			jobs = append(jobs, e3Job{8, si, 0, 1})
+		}
+	}
 	return jobs
 }
 
@@ -552,6 +558,105 @@ func forEachCase(prop, tier string, j e3Job, fn func(c e3Case)) {
 		packetHeaderLattice(j, run)
 	case 7:
 		lsePresetLattice(j, run)
+	case 8:
+		headerRewrites(seeds[j.Seed], run)
+	}
+}
+
+// headerRewrites: consistent multi-field rewrites of one seed's headers that single-byte deviations cannot produce.
+//   JPEG 2000: the QCD segment rebuilt with every quantisation style {none, derived, expounded} x guard bits {0,2,7} x
+//   a payload of {0,1,2,3, n-1, n, n+1, n+2} bytes (Lqcd consistent), crossed with the COD transform byte {0,1}; in-bit-stream
+//   markers SOP (FF91 0004 nnnn) and EPH (FF92) placed after SOD, with Psot valid and with Psot = 0 / Psot beyond the end.
+//   JPEG: the frame header repeated in front of itself with dimensions halved or doubled (two SOFn before SOS).
+func headerRewrites(s seed, run func(fam int, in []byte, fi *imagetypes.FrameInfo, desc string)) {
+	b := s.Data
+	if s.Fam == famJ2K {
+		q := bytes.Index(b, []byte{0xFF, 0x5C})
+		cod := bytes.Index(b, []byte{0xFF, 0x52})
+		if q > 0 && cod > 0 && q+4 < len(b) {
+			l := int(b[q+2])<<8 | int(b[q+3])
+			end := q + 2 + l
+			if end <= len(b) && l >= 3 {
+				n := l - 3
+				for _, style := range []byte{0, 1, 2} {
+					for _, guard := range []byte{0, 2, 7} {
+						for _, m := range []int{0, 1, 2, 3, n - 1, n, n + 1, n + 2} {
+							if m < 0 {
+								continue
+							}
+							for _, tr := range []byte{0, 1} {
+								pay := make([]byte, m)
+								for i := range pay {
+									if i < n {
+										pay[i] = b[q+5+i]
+									} else {
+										pay[i] = 0x48
+									}
+								}
+								seg := append([]byte{0xFF, 0x5C, byte((m + 3) >> 8), byte(m + 3), style | guard<<5}, pay...)
+								c := append(append(append([]byte{}, b[:q]...), seg...), b[end:]...)
+								if cod+13 < q {
+									c[cod+13] = tr // SPcod transformation byte
+								}
+								run(s.Fam, c, nil, fmt.Sprintf("%s QCD style %d guard %d payload %d bytes transform %d", s.Name, style, guard, m, tr))
+							}
+						}
+					}
+				}
+			}
+		}
+		sot := bytes.Index(b, []byte{0xFF, 0x90})
+		sod := bytes.Index(b, []byte{0xFF, 0x93})
+		if sot > 0 && sod > sot {
+			for _, mk := range [][]byte{{0xFF, 0x91, 0x00, 0x04, 0x00, 0x00}, {0xFF, 0x92}, {0xFF, 0x91, 0x00, 0x04, 0x00, 0x00, 0x00, 0xFF, 0x92}} {
+				for _, psot := range []int{-1, 0, 1 << 20} {
+					c := append(append(append([]byte{}, b[:sod+2]...), mk...), b[sod+2:]...)
+					p := psot
+					if p < 0 {
+						p = int(binary.BigEndian.Uint32(b[sot+6:])) + len(mk)
+					}
+					binary.BigEndian.PutUint32(c[sot+6:], uint32(p))
+					run(s.Fam, c, nil, fmt.Sprintf("%s marker %x after SOD, Psot %d", s.Name, mk, psot))
+					// the same with the packet data removed (marker directly before EOC)
+					if len(c) >= 2 {
+						d := append(append([]byte{}, c[:sod+2+len(mk)]...), 0x00, 0xFF, 0xD9)
+						run(s.Fam, d, nil, fmt.Sprintf("%s marker %x then one byte and EOC, Psot %d", s.Name, mk, psot))
+					}
+				}
+			}
+		}
+		return
+	}
+	if s.Fam != famJPEG {
+		return
+	}
+	for i := 2; i+4 < len(b); {
+		if b[i] != 0xFF {
+			return
+		}
+		m := b[i+1]
+		l := int(b[i+2])<<8 | int(b[i+3])
+		if m == 0xDA || i+2+l > len(b) {
+			return
+		}
+		if m == 0xC0 || m == 0xC1 || m == 0xC3 || m == 0xF7 {
+			sof := b[i : i+2+l]
+			h := int(sof[5])<<8 | int(sof[6])
+			w := int(sof[7])<<8 | int(sof[8])
+			for _, d := range [][2]int{{w / 2, h / 2}, {w * 2, h * 2}, {w, h}, {1, 1}, {w + 8, h}} {
+				if d[0] < 1 || d[1] < 1 || d[0] > 65535 || d[1] > 65535 {
+					continue
+				}
+				dup := append([]byte(nil), sof...)
+				dup[5], dup[6], dup[7], dup[8] = byte(d[1]>>8), byte(d[1]), byte(d[0]>>8), byte(d[0])
+				before := append(append(append([]byte{}, b[:i]...), dup...), b[i:]...)
+				run(s.Fam, before, nil, fmt.Sprintf("%s frame header repeated in front of itself with %dx%d", s.Name, d[0], d[1]))
+				after := append(append(append([]byte{}, b[:i+2+l]...), dup...), b[i+2+l:]...)
+				run(s.Fam, after, nil, fmt.Sprintf("%s frame header repeated after itself with %dx%d", s.Name, d[0], d[1]))
+			}
+			return
+		}
+		i += 2 + l
 	}
 }
 
